@@ -204,12 +204,14 @@ func c33GenTemplateIdiom(r *rand.Rand) (decl, call string) {
 }
 
 var c33PH = regexp.MustCompile(`%[A-Za-z][A-Za-z0-9]*`)
+var c33FnPH = regexp.MustCompile(`^%f[0-9]*$`) // %f, %f2, %f3 …: function names declared by the idiom
 var c33PH2 = regexp.MustCompile(`[A-Za-z_$][A-Za-z0-9_$]*`)
 
 type c33Prog struct {
 	Src    string
 	Class  string // "" or the known-defect class of the one hostile idiom used
 	Idioms []string
+	Module bool // an ES module (import/export, strict mode): evaluated with vm.SourceTextModule
 }
 
 func c33Pick(r *rand.Rand, pool []string, used map[string]bool) string {
@@ -236,7 +238,7 @@ func c33Expand(r *rand.Rand, id c33Idiom, serial int) (decl []string, call []str
 		var n string
 
 		switch {
-		case ph == "%f" || ph == "%f2":
+		case c33FnPH.MatchString(ph):
 			n = "fn" + ph[1:] + "_" + string(rune('A'+serial%26)) + string(rune('a'+serial/26%26))
 		case ph == "%C":
 			n = "Cls" + string(rune('A'+serial%26))
@@ -405,8 +407,19 @@ func c33GenProgram(r *rand.Rand, allowHostile bool) c33Prog {
 		chosen[r.Intn(len(chosen))] = h
 	}
 
+	c33Assemble(r, &p, chosen)
+
+	return p
+}
+
+// c33Assemble instantiates the chosen idioms and renders the program text (script, or ES module when p.Module).
+func c33Assemble(r *rand.Rand, p *c33Prog, chosen []c33Idiom) {
 	toks := []string{}
 	calls := []string{}
+
+	if p.Module {
+		toks = append(toks, strings.Fields(c33ModuleHead)...)
+	}
 
 	for i, id := range chosen {
 		if id.gen != nil {
@@ -426,16 +439,24 @@ func c33GenProgram(r *rand.Rand, allowHostile bool) c33Prog {
 		}
 	}
 
-	toks = append(toks, "console", ".", "log", "(", "JSON", ".", "stringify", "(", "[")
-	toks = append(toks, calls...)
-	toks = append(toks, "]", ")", ")", ";")
+	if p.Module {
+		toks = append(toks, strings.Fields("const outAll = JSON . stringify ( [")...)
+		toks = append(toks, calls...)
+		toks = append(toks, strings.Fields(c33ModuleTail)...)
+	} else {
+		toks = append(toks, "console", ".", "log", "(", "JSON", ".", "stringify", "(", "[")
+		toks = append(toks, calls...)
+		toks = append(toks, "]", ")", ")", ";")
+	}
 
 	cls := p.Class
 	if cls == "" {
 		cls = "none"
 	}
 
-	p.Src = "//C33 class=" + cls + " idioms=" + strings.Join(p.Idioms, ",") + "\n" + c33Join(r, toks)
+	if p.Module {
+		cls += " module=1"
+	}
 
-	return p
+	p.Src = "//C33 class=" + cls + " idioms=" + strings.Join(p.Idioms, ",") + "\n" + c33Join(r, toks)
 }
